@@ -16,7 +16,9 @@ Recognised shape (anything else aborts with exit status 1, "tie broken"):
       if nOrder == 12: dG = np.array([[l, l, l], ...]); dW = np.array([l, ...])
       elif ...                         (exactly the orders 1, 4, 8, 10, 12, no else branch)
       return dG, dW
-  Grid.compute_face_areas(self, quadrature_rule=<str>, order=<int>, latlon=<bool>)  (defaults only)
+  Grid.compute_face_areas(self, quadrature_rule=<str>, order=<int>, latlon=<bool>)  (defaults) and its single
+      `dim = ...` statement: `dim = 2` (z dropped on the Cartesian path) or `dim = 2 if latlon else 3` /
+      `dim = 3 if not latlon else 2` (z kept on the Cartesian path)
 
 Every numeric literal is read from its SOURCE TEXT into an exact decimal (never through a float)
 and emitted as an integer numerator over the common denominator 10^24.  A literal that is not a
@@ -191,8 +193,30 @@ def trans_defaults(tree):
                     rule, order, latlon = d[0].value, d[1].value, d[2].value
                     if rule not in ("triangular", "gaussian") or type(order) is not int or type(latlon) is not bool:
                         raise Unknown("compute_face_areas defaults: %r %r %r" % (rule, order, latlon))
-                    return rule, order, latlon
+                    return rule, order, latlon, trans_dim(fn)
     raise Unknown("Grid.compute_face_areas not found")
+
+
+def trans_dim(fn):
+    """True iff the Cartesian path (latlon False) passes dim = 3 to get_all_face_area_from_coords"""
+    assigns = [st for st in ast.walk(fn) if isinstance(st, ast.Assign) and len(st.targets) == 1
+               and isinstance(st.targets[0], ast.Name) and st.targets[0].id == "dim"]
+    if len(assigns) != 1:
+        raise Unknown("compute_face_areas: expected exactly one `dim = ...` statement, found %d" % len(assigns))
+    v = assigns[0].value
+
+    def const(n, k):
+        return isinstance(n, ast.Constant) and type(n.value) is int and n.value == k
+    if const(v, 2):
+        return False
+    if isinstance(v, ast.IfExp):
+        t = v.test
+        if isinstance(t, ast.Name) and t.id == "latlon" and const(v.body, 2) and const(v.orelse, 3):
+            return True
+        if isinstance(t, ast.UnaryOp) and isinstance(t.op, ast.Not) and isinstance(t.operand, ast.Name) \
+                and t.operand.id == "latlon" and const(v.body, 3) and const(v.orelse, 2):
+            return True
+    raise Unknown("compute_face_areas: unrecognised `dim` expression: " + ast.unparse(v))
 
 
 def zl(xs):
@@ -229,6 +253,8 @@ def emit(gauss, tri, defaults):
     o.append("Definition c05_default_is_triangular : bool := %s." % ("true" if defaults[0] == "triangular" else "false"))
     o.append("Definition c05_default_order : Z := %d." % defaults[1])
     o.append("Definition c05_default_latlon : bool := %s." % ("true" if defaults[2] else "false"))
+    o.append("(* `dim` passed by compute_face_areas when latlon is False: true = 3 (node_z used), false = 2 (node_z dropped) *)")
+    o.append("Definition c05_dim_cartesian3 : bool := %s." % ("true" if defaults[3] else "false"))
     return "\n".join(o) + "\n"
 
 
